@@ -39,6 +39,7 @@ def run(ctx) -> None:
     ctx.guard("C15.inverse", inverse, maps)
     ctx.guard("C15.formula", constructors)
     ctx.guard("C15.fit-guard", fit_guard)
+    ctx.guard("C15.accepts-valid", accepts_valid)
     for short in list(SPEC) + ["WellRandomizer.randomize_wells", "WellRandomizer.derandomize_wells"]:
         ctx.guard("C15.shape", shape_rule, short)
     ctx.guard("C15.random", randomizer)
@@ -544,3 +545,37 @@ def _mode_of(fv, node: int):
         if isinstance(r, ast.Compare) and isinstance(r.ops[0], ast.Eq) and pol and is_name(r.left, "mode") and isinstance(r.comparators[0], ast.Constant):
             return r.comparators[0].value
     return None
+
+
+def accepts_valid(ctx) -> None:
+    """The constructors refuse no valid geometry: each is interpreted (rules/init_model.py - our own interpreter, nothing of
+    the repository is executed) for a table of valid shapes - single-row, single-column, 1x1, 8x12, 26 rows - and must not
+    reach a raise through a guard that can be evaluated. (Guards that cannot be evaluated are assumed to pass.)"""
+    from . import init_model
+
+    rule = "C15.accepts-valid"
+    table = {
+        "WellRotator": [dict(original_shape=s) for s in ((1, 1), (1, 12), (8, 1), (8, 12), (2, 3), (26, 2), (4, 26))],
+        "WellShifter": [dict(shape_A=a, shape_B=b, shifted_A01=w) for a, b, w in (((8, 12), (8, 12), "A01"), ((2, 3), (4, 6), "B02"), ((1, 1), (1, 1), "A01"), ((1, 12), (8, 12), "H01"),
+                                                                              ((8, 1), (8, 12), "A12"), ((2, 3), (26, 99), "Y97"))],
+        "WellRandomizer": [dict(original_shape=s, random_seed=42, mode=m) for s in ((8, 12), (1, 12), (8, 1), (1, 1), (26, 2)) for m in ("full", "row", "column")],
+    }
+    n = 0
+    for cname, rows in table.items():
+        cls = ctx.prog.class_by_name(cname)
+        init = cls.methods.get("__init__") if cls is not None else None
+        if init is None:
+            ctx.rep.inconclusive(rule, cname, "constructor not found")
+            continue
+        ctx.rep.touch(init)
+        bad = None
+        for params in rows:
+            if not set(params) <= set(init.params):
+                continue
+            kind, _ = init_model.run_function(init, dict(params), ctx.prog)
+            n += 1
+            if kind == "raise" and bad is None:
+                bad = params
+        ctx.rep.check(bad is None, rule, f"{init.qualname}/valid-arguments", f"none of the valid argument sets of the evaluation table is refused by {cname}()",
+                      f"the valid arguments {bad} are refused (a guard that rejects them was reached): the property's mappings are defined for this geometry, {cname} raises instead", where=init.where())
+    ctx.rep.floor(rule, "constructor evaluations", n, 20)
